@@ -971,7 +971,7 @@ func stressMain(args []string) {
 					if json.Unmarshal([]byte(l), &o) != nil {
 						continue
 					}
-					if _, ok := o["bad"]; ok {
+					if _, ok := o["bad"].(string); ok {
 						lines = append(lines, l)
 					}
 					if h, ok := o["hits"].(float64); ok {
